@@ -486,17 +486,39 @@ func loadFixtureCorpus() {
 	sort.Strings(fixtureIDs)
 }
 
+// docBytes returns the JSON bytes of a document: "@fx:<path under fixtures/>" is read from the repository (whatever the
+// tier: replay files and child processes must find every document), anything else is inline JSON.
 func docBytes(doc string) ([]byte, error) {
 	if strings.HasPrefix(doc, "@fx:") {
-		corpusOnce.Do(loadFixtureCorpus)
-		b, ok := corpus[doc]
-		if !ok {
-			return nil, fmt.Errorf("no corpus document %q", doc)
+		corpusMu.Lock()
+		defer corpusMu.Unlock()
+		if b, ok := corpusLazy[doc]; ok {
+			return b, nil
 		}
+		path := filepath.Join(repoDir(), "fixtures", strings.TrimPrefix(doc, "@fx:"))
+		b, err := os.ReadFile(path)
+		if err != nil {
+			return nil, fmt.Errorf("no corpus document %q: %v", doc, err)
+		}
+		if ext := filepath.Ext(path); ext != ".json" {
+			if b, err = yamlToJSON(b); err != nil {
+				return nil, fmt.Errorf("corpus document %q: %v", doc, err)
+			}
+		}
+		b = []byte(compactJSON(b))
+		if corpusLazy == nil {
+			corpusLazy = map[string][]byte{}
+		}
+		corpusLazy[doc] = b
 		return b, nil
 	}
 	return []byte(doc), nil
 }
+
+var (
+	corpusMu   sync.Mutex
+	corpusLazy map[string][]byte
+)
 
 func FixtureIDs() []string {
 	corpusOnce.Do(loadFixtureCorpus)
